@@ -6,6 +6,7 @@ asan      nightly, -Zsanitizer=address, reduced workload, counting allocator com
 tsan      nightly, -Zsanitizer=thread -Zbuild-std, thread engine of C19
 miri      cargo +nightly miri run, tiny workloads (UB / data race / deadlock interpreter)
 memcheck  valgrind memcheck on the `verif` binary, reduced workload
+dev0      profile `dev0`: the five library crates at opt-level 0 (as `cargo test` builds them), the rest optimised
 b64feat   profile `verif` with the library's cargo features passkey-types/serialize_bytes_as_base64_string
           (the documented alternative build configuration: byte strings serialise as base64url text) and
           passkey-types/testable (test-support derives and constructors on public types)
@@ -30,7 +31,7 @@ for p, more in {
     "C06": ["b64feat"],
     "C07": ["miri"],
     "C12": ["asan", "miri"],
-    "C15": ["asan", "miri"],
+    "C15": ["b64feat", "dev0", "asan", "miri"],
     "C16": ["miri"],
     "C18": ["asan"],
     "C19": ["tsan", "miri"],
@@ -40,6 +41,7 @@ QUICK_EXTRA = {p: ["release"] for p in ALL}
 QUICK_EXTRA["C02"] += ["b64feat"]
 QUICK_EXTRA["C03"] += ["b64feat"]
 QUICK_EXTRA["C06"] += ["b64feat"]
+QUICK_EXTRA["C15"] += ["b64feat", "dev0"]
 
 _built = {}
 
@@ -61,6 +63,8 @@ def build_for(engine, build):
         _built["native"] = _built["memcheck"] = ok
     elif engine == "release":
         ok = build("release")
+    elif engine == "dev0":
+        ok = build("dev0")
     elif engine == "b64feat":
         ok = build("verif", extra_env={"CARGO_TARGET_DIR": os.path.join(HARNESS, "target-b64")},
                    extra_args=["--features", "b64bytes,testable"])
@@ -89,6 +93,9 @@ def run_engine(engine, prop, tier, seed, out, extra, run_vdrive, exe_path, watch
     if engine == "release":
         extra["engine"] = "release"
         return run_vdrive(exe_path("release"), prop, tier, seed, out, extra, timeout=watchdog)
+    if engine == "dev0":
+        extra["engine"] = "dev0"
+        return run_vdrive(exe_path("dev0"), prop, tier, seed, out, extra, timeout=watchdog)
     if engine == "b64feat":
         extra["engine"] = "b64feat"
         return run_vdrive(exe_path("verif", "target-b64"), prop, tier, seed, out, extra, timeout=watchdog)
